@@ -253,8 +253,9 @@ func matchExists(_ Context, doc bsonkit.Doc, _, path string, v interface{}) erro
 
 	// collect values along the path; All traverses arrays of subdocs and
 	// drops Missing entries when compact is set, so a non-empty result means
-	// at least one element along the path produced a value
-	value, multi := bsonkit.All(doc, path, true, true)
+	// at least one element along the path produced a value (the per-document
+	// values are not merged: an empty array is a value that exists)
+	value, multi := bsonkit.All(doc, path, true, false)
 	found := false
 	if multi {
 		if arr, ok := value.(bson.A); ok {
@@ -487,8 +488,21 @@ func matchElem(ctx Context, doc bsonkit.Doc, name, path string, v interface{}) e
 		return ErrNotMatched
 	}
 
+	// a query on fields (no operators) only applies to embedded documents
+	fieldQuery := true
+	for _, exp := range query {
+		if len(exp.Key) > 0 && exp.Key[0] == '$' {
+			fieldQuery = false
+		}
+	}
+
 	// match first item
 	for _, item := range array {
+		// skip items that are not documents for field queries
+		if _, isDoc := item.(bson.D); fieldQuery && !isDoc {
+			continue
+		}
+
 		// prepare virtual doc
 		virtual := bson.D{
 			bson.E{Key: "item", Value: item},
